@@ -403,3 +403,42 @@ def det_small(M):
 
 def solve_small(A, B):
     return inv_small(A) @ np.asarray(B, dtype=object)
+
+
+def pinv_small(A, rcond=1e-15, hermitian=False, **kw):
+    """numpy.linalg.pinv for 1x1 and symmetric 2x2 matrices: eigenvalues with |lambda| <= rcond * max|lambda| are dropped
+    (numpy's cut-off), the rest inverted. The cut-off test is decided by the solver (fork)."""
+    M = np.asarray(A, dtype=object)
+    n = M.shape[0]
+    if M.shape != (n, n) or n > 2:
+        raise HarnessError("pinv model: only 1x1 and symmetric 2x2 matrices")
+    if n == 1:
+        a = SymReal.lift(M[0, 0])
+        if bool(a == 0):
+            return sarr([[SymReal.const(0)]])
+        return sarr([[1 / a]])
+    a, b, c, e = (SymReal.lift(M[0, 0]), SymReal.lift(M[0, 1]), SymReal.lift(M[1, 0]), SymReal.lift(M[1, 1]))
+    tr, det = a + e, a * e - b * c
+    rc = Fraction(rcond)
+    if bool(tr > 0) and bool(det >= 0):
+        # positive semidefinite: lambda_- <= rc * lambda_+  <=>  det * (1 + rc)^2 <= rc * tr^2   (no square root needed for the test)
+        keep_p = True
+        keep_m = not bool(det * (1 + rc) ** 2 <= tr * tr * rc)
+        if keep_m:
+            return inv_small(M)
+        r = (tr * tr - det * 4).sqrt()
+        lp, lm = (tr + r) / 2, (tr - r) / 2
+    else:
+        r = (tr * tr - det * 4).sqrt()
+        lp, lm = (tr + r) / 2, (tr - r) / 2  # lp >= lm
+        big = abs(lp) if bool(abs(lp) >= abs(lm)) else abs(lm)
+        keep_p = bool(abs(lp) > big * rc)
+        keep_m = bool(abs(lm) > big * rc)
+        if keep_p and keep_m:
+            return inv_small(M)
+        if not keep_p and not keep_m:
+            return sarr([[SymReal.const(0)] * 2] * 2)
+    lam, other = (lp, lm) if keep_p else (lm, lp)
+    # spectral projector onto the kept eigenvector: (A - other*I) / (lam - other); pseudo-inverse = projector / lam
+    den = (lam - other) * lam
+    return sarr([[(a - other) / den, b / den], [c / den, (e - other) / den]])
